@@ -21,7 +21,8 @@
   `np.timedelta64` / `pd.Timedelta` / `datetime.timedelta` are the duration `tdelta` (microseconds;
   never `==` to a number); an `np.timedelta64` in YEARS or MONTHS is not such a duration (pandas refuses it) but the calendar
   duration `cdelta` (months; fix C14-F9: equal only to another year / month `np.timedelta64` of as many months), and `pd.NaT` - which `np.datetime64('NaT')` / `np.timedelta64('NaT')` become -
-  is the single object `nat`: equal to itself by identity (`x is y`), `==` to nothing.
+  is the single object `nat`: equal to itself by identity (`x is y`), `==` to nothing.  An `np.datetime64` in `ps` / `fs` / `as` is `fdt`
+  (attoseconds; fix C14-F10, review v5: equal only to another such `np.datetime64` of the same instant).
 -/
 import PygModel.Sort
 
@@ -38,6 +39,10 @@ inductive EVal where
   /-- a numpy duration counted in calendar months (`np.timedelta64` in units `Y` / `M`: pandas has no such duration, numpy has no
   common unit for it with weeks…ns): equal exactly to the same number of months, never to a number, never to a `tdelta` -/
   | cdelta (months : Int)
+  /-- an `np.datetime64` in a unit finer than nanoseconds (`ps`, `fs`, `as`; the instant counted in attoseconds since 1970): pandas would
+  truncate it to nanoseconds, so `_number` leaves it as it is and (fix C14-F10) it equals exactly the fine `np.datetime64` of the same instant -
+  never a `datetime` / `Timestamp` / `datetime64[ns]` (`Timestamp.__eq__` truncates: it called BOTH 0 ps and 1 ps equal to `Timestamp(0)`), never a number -/
+  | fdt (as : Int)
   | nat
   | list (xs : List EVal)
   | tuple (xs : List EVal)
@@ -86,6 +91,7 @@ mutual
     | .date a, .date b => a == b                           -- `x == y` on two dates
     | .tdelta a, .tdelta b => a == b                       -- `x == y` on two durations
     | .cdelta a, .cdelta b => a == b                       -- two year / month `np.timedelta64`: numpy `==` (12 months to the year)
+    | .fdt a, .fdt b => a == b                             -- two `np.datetime64` in ps / fs / as: numpy `==` (the instant, counted in attoseconds)
     | .nat, .nat => true                                   -- `x is y`: `pd.NaT` is one object
     | .list xs, .list ys => eqArr xs ys                    -- :72
     | .tuple xs, .tuple ys => eqArr xs ys                  -- :72
@@ -118,6 +124,7 @@ mutual
     | .date d => .date d
     | .tdelta d => .tdelta d
     | .cdelta d => .cdelta d
+    | .fdt d => .fdt d
     | .nat => .nat
     | .list xs => .list (EVal.normList xs)
     | .tuple xs => .tuple (EVal.normList xs)
